@@ -3,6 +3,10 @@
 //     comparison, locks held locally at that point),
 //   - every call to a function or method declared in those packages (callee, locks held locally),
 //   - every lock acquisition (lock, mode, locks held locally),
+//   - for every function that takes a lock (itself or in a function literal inside it): every `return` and the
+//     reachable end of the body, with the locks taken in that body that may still be held there and are not
+//     covered by a deferred unlock (a branch-merging may-analysis separate from the linear tracker, see leak.go),
+//
 // per function, as Gallina data (Generated/LockTable.v).  It is a serialiser with a linear
 // held-lock tracker; what the table must satisfy is stated and checked in Coq (Conc/LockOrder.v).
 // Types are resolved with go/types using a stub importer for everything outside the two packages,
@@ -44,6 +48,7 @@ type fnInfo struct {
 	accesses []string
 	calls    []string
 	acqs     []string
+	rets     []string
 }
 
 type analyser struct {
@@ -385,6 +390,7 @@ func (a *analyser) file(f *ast.File) {
 		fn := &fnInfo{name: name}
 		a.fns = append(a.fns, fn)
 		(&walker{a: a, fn: fn}).block(fd.Body)
+		fn.rets = a.leaks(fd)
 	}
 }
 
@@ -446,10 +452,10 @@ func main() {
 	b.WriteString("Definition lock_table : list fn_entry := [\n")
 	rows := []string{}
 	for _, f := range all {
-		if len(f.accesses)+len(f.calls)+len(f.acqs) == 0 {
+		if len(f.accesses)+len(f.calls)+len(f.acqs)+len(f.rets) == 0 {
 			continue
 		}
-		rows = append(rows, fmt.Sprintf(" mk_fn %s\n  [%s]\n  [%s]\n  [%s]", q(f.name), strings.Join(f.accesses, "; "), strings.Join(f.calls, "; "), strings.Join(f.acqs, "; ")))
+		rows = append(rows, fmt.Sprintf(" mk_fn %s\n  [%s]\n  [%s]\n  [%s]\n  [%s]", q(f.name), strings.Join(f.accesses, "; "), strings.Join(f.calls, "; "), strings.Join(f.acqs, "; "), strings.Join(f.rets, "; ")))
 	}
 	b.WriteString(strings.Join(rows, ";\n"))
 	b.WriteString("\n].\n")
